@@ -3,6 +3,7 @@
   Property theorems only.
 -/
 import SplVerif.Lemmas.Codec
+import SplVerif.Lemmas.CodecEnv
 
 namespace Spl.C19
 open Spl.Codec
@@ -22,6 +23,23 @@ theorem feed_chunk_independent {Msg} (env : Env Msg) (hok : EnvOK env) (chunks :
 theorem decode_stable {Msg} (env : Env Msg) (hok : EnvOK env) (b x : Bytes)
     (h : ∀ (_ : Unit), decode env b ≠ .needMore) : decode env (b ++ x) = decode env b :=
   decode_append env hok b x (h ())
+
+/-- `EnvOK` is not an assumption for the header-parser model that the correspondence run ties to
+    `httparse::parse_headers` (`DEC` op: same verdicts on every generated header variant): once
+    its verdict is `complete` or `error`, later bytes never change it. -/
+theorem env_ok {Msg} (parseBody : Bytes → Option Msg) :
+    EnvOK ({ parseHeaders := parseHeadersModel, parseBody := parseBody } : Env Msg) :=
+  envOK_model parseBody
+
+/-- **C19 for the modelled codec, without hypotheses**: for every body parser, every byte
+    stream and every way of cutting it into reads (any number of chunks of any sizes, including
+    empty ones and cuts inside a header, inside a multi-byte character or inside the body), the
+    decoded message sequence and the terminal status are those of a single read of the whole
+    stream. -/
+theorem chunk_independent {Msg} (parseBody : Bytes → Option Msg) (chunks : List Bytes) :
+    feed ({ parseHeaders := parseHeadersModel, parseBody := parseBody } : Env Msg) chunks [] =
+      feed ({ parseHeaders := parseHeadersModel, parseBody := parseBody } : Env Msg) [chunks.flatten] [] :=
+  feed_chunk_independent _ (envOK_model parseBody) chunks
 
 /-- Every emitted frame announces the byte length of its body. -/
 theorem encode_length (body : Bytes) :
